@@ -1541,7 +1541,13 @@ def connect(m, *args, **kwargs):
                 first_member_shape = member.shape
                 first_member_init = member.init
                 first_member_init_as_const = member._init_as_const
+                first_member_dimensions = member.dimensions
                 continue
+            if first_member_dimensions != member.dimensions:
+                raise ConnectionError(
+                    f"Cannot connect the member {_format_path(first_path)} with dimensions "
+                    f"{first_member_dimensions!r} to the member {_format_path(path)} with "
+                    f"dimensions {member.dimensions!r} because the dimensions do not match")
             if Shape.cast(first_member_shape).width != Shape.cast(member_shape).width:
                 raise ConnectionError(
                     f"Cannot connect the member {_format_path(first_path)} with shape "
